@@ -14,6 +14,8 @@ import TypedpyModel.Lemmas.Formats
 import TypedpyModel.Sem.Decimal
 import TypedpyModel.Sem.EntryD
 import TypedpyModel.Lemmas.BridgeWf
+import TypedpyModel.Lemmas.Idempotent
+import TypedpyModel.Lemmas.NestedHooks
 namespace Typedpy.C01
 open Typedpy
 
@@ -432,6 +434,268 @@ theorem bridge_instantiate_sound_uncond (O : Oracles) (c : ClassDef) (ord : List
     (h : instantiateOrd O c ord kw = .ok x) :
     ∃ x0, x = addConstants c.constants x0 ∧ wellFormed O (c.toStruct ord [c.name]) x0 = true :=
   bridge_instantiate_sound O c ord kw x (bridge_wfDecl c ord [c.name] hk hreq hm) h
+
+/-! ### `__validate__` hooks of NESTED classes
+
+`allInst H v` (Lemmas/NestedHooks.lean): every Structure instance inside `v`, at any depth, is accepted by the hook of
+its class (`H`, universally quantified).  The constructor and the instance-based entry points never build a nested
+instance of a hooked class - a ClassReference field stores the instance it is given - so they preserve it.  (The
+Deserializer DOES build nested instances; that every nested constructor call runs the hook is executed on the real code
+by the nested-hook stream of the check: the Deser model has no nested hooks.) -/
+
+
+theorem c01_argFor_allInst (H : Hooks) (c : ClassOpts) (defaults kw : List (String × PyVal)) (name : String) (v : PyVal)
+    (hkw : allInstAttrs H kw = true) (hd : allInstAttrs H defaults = true)
+    (h : argFor c defaults kw name = some v) : allInst H v = true := by
+  unfold argFor at h
+  cases hl : lookup name kw with
+  | some w =>
+    rw [hl] at h
+    simp only at h
+    split at h
+    · cases h
+    · cases h
+      exact (c01_allInstAttrs_iff H kw).1 hkw (name, v) (lookup_mem hl)
+  | none =>
+    rw [hl] at h
+    simp only at h
+    cases hdl : lookup name defaults with
+    | none => rw [hdl] at h; cases h
+    | some d =>
+      rw [hdl] at h
+      simp only at h
+      split at h
+      · cases h
+      · cases h
+        exact (c01_allInstAttrs_iff H defaults).1 hd (name, v) (lookup_mem hdl)
+
+theorem c01_normFields_allInst (O : Oracles) (H : Hooks) (c : ClassOpts) (defaults kw : List (String × PyVal))
+    (hkw : allInstAttrs H kw = true) (hd : allInstAttrs H defaults = true) :
+    ∀ fields : List (String × FieldDecl), fields.all (fun p => noInline p.2) = true →
+      admitsFields O c defaults kw fields = true → allInstAttrs H (normFields O c defaults kw fields) = true
+  | [], _, _ => rfl
+  | (name, f) :: rest, hf, ha => by
+    simp only [List.all_cons, and_true_iff] at hf
+    simp only [admitsFields, and_true_iff] at ha
+    simp only [normFields]
+    cases hA : argFor c defaults kw name with
+    | none => exact c01_normFields_allInst O H c defaults kw hkw hd rest hf.2 ha.2
+    | some v =>
+      simp only [allInstAttrs, and_true_iff]
+      have hadm : admits O f v = true := by have := ha.1; rw [hA] at this; exact this
+      exact ⟨norm_allInst O H f v hf.1 hadm (c01_argFor_allInst H c defaults kw name v hkw hd hA),
+        c01_normFields_allInst O H c defaults kw hkw hd rest hf.2 ha.2⟩
+
+/-- **hooks of nested classes, constructor**: if every Structure instance inside the keyword arguments (and the
+    defaults) is accepted by the hook of its class, so is every instance inside the attributes of the instance the
+    constructor returns - the constructor never builds a nested instance of a hooked class (ClassReference fields
+    store the instance they are given); classes without an inline StructureReference -/
+theorem construct_nested_hooks (O : Oracles) (H : Hooks) (c : ClassOpts) (fields : List (String × FieldDecl))
+    (defaults kw : List (String × PyVal)) (x : PyVal)
+    (hf : fields.all (fun p => noInline p.2) = true)
+    (hkw : allInstAttrs H kw = true) (hd : allInstAttrs H defaults = true)
+    (h : construct O (.struct c fields defaults) kw = .ok x) : allInstAttrs H (instAttrs x) = true := by
+  have hs := C02_construct_spec O c fields defaults kw
+  cases ha : admitsKw O (.struct c fields defaults) kw
+  · rcases hs.2 ha with ⟨e, he, _⟩
+    rw [he] at h; cases h
+  · rw [hs.1 ha] at h
+    cases h
+    simp only [admitsKw, and_true_iff] at ha
+    simp only [normKw, instAttrs]
+    rw [c01_allInstAttrs_iff]
+    intro e he
+    rcases List.mem_append.1 he with h1 | h1
+    · exact (c01_allInstAttrs_iff H kw).1 hkw e (List.mem_filter.1 h1).1
+    · exact (c01_allInstAttrs_iff H _).1 (c01_normFields_allInst O H c defaults kw hkw hd fields hf ha.2) e h1
+
+
+/-- the override keywords an entry point is given -/
+def opKw : EntryOp → List (String × PyVal)
+  | .shallowClone kw => kw
+  | .fromOtherClass _ kw => kw
+  | .fromMapping _ kw => kw
+  | _ => []
+
+theorem c01_setFields_allInst (H : Hooks) (cls : FieldDecl) (x : PyVal)
+    (hx : allInstAttrs H (instAttrs x) = true) : allInstAttrs H (setFields cls x) = true := by
+  rw [c01_allInstAttrs_iff] at hx ⊢
+  intro e he
+  simp only [setFields, List.mem_filterMap] at he
+  rcases he with ⟨n, _, hn⟩
+  cases hl : lookup n (instAttrs x) with
+  | none => simp [hl] at hn
+  | some v =>
+    simp only [hl] at hn
+    split at hn
+    · cases hn
+    · cases hn
+      exact hx (n, v) (lookup_mem hl)
+
+theorem c01_entryKw_allInst (H : Hooks) (cls : FieldDecl) (x : PyVal) (op : EntryOp) (kw : List (String × PyVal))
+    (hx : allInstAttrs H (instAttrs x) = true) (hd : allInstAttrs H (classDefaults cls) = true)
+    (hop : allInstAttrs H (opKw op) = true) (h : entryKw cls x op = some kw) : allInstAttrs H kw = true := by
+  have hsf := c01_setFields_allInst H cls x hx
+  cases op <;> simp only [entryKw, Option.some.injEq, reduceCtorEq] at h <;> subst h
+  · -- shallowClone
+    simp only [opKw] at hop
+    rw [c01_allInstAttrs_iff] at hsf hop ⊢
+    intro e he
+    simp only [overrideKw, List.mem_append, List.mem_filter] at he
+    rcases he with h1 | h1
+    · exact hsf e h1.1
+    · exact hop e h1
+  · -- fromOtherClass
+    simp only [opKw] at hop
+    rw [c01_allInstAttrs_iff] at hx hd hop ⊢
+    intro e he
+    simp only [List.mem_append, List.mem_map, List.mem_filter] at he
+    rcases he with ⟨n, _, rfl⟩ | h1
+    · simp only
+      cases hl : lookup n (instAttrs x) with
+      | some v => simp only [Option.getD_some]; exact hx (n, v) (lookup_mem hl)
+      | none =>
+        simp only [Option.getD_none]
+        cases hdl : lookup n (classDefaults cls) with
+        | some d => simp only [Option.getD_some]; exact hd (n, d) (lookup_mem hdl)
+        | none => simp [allInst]
+    · exact hop e h1
+  · -- fromMapping
+    simp only [opKw] at hop
+    rw [c01_allInstAttrs_iff] at hx hop ⊢
+    intro e he
+    simp only [List.mem_append, List.mem_map, List.mem_filter] at he
+    rcases he with ⟨n, _, rfl⟩ | h1
+    · simp only
+      cases hl : lookup n (instAttrs x) with
+      | some v => simp only [Option.getD_some]; exact hx (n, v) (lookup_mem hl)
+      | none => simp [allInst]
+    · exact hop e h1
+  · exact hsf
+
+/-- **hooks of nested classes, entry points**: each entry point preserves "every nested instance is accepted by the
+    hook of its class" -/
+theorem entryH_nested_hooks (O : Oracles) (H : Hooks) (c : ClassOpts) (fields : List (String × FieldDecl))
+    (defaults : List (String × PyVal)) (x y : PyVal) (op : EntryOp)
+    (hf : fields.all (fun p => noInline p.2) = true) (hd : allInstAttrs H defaults = true)
+    (hx : allInstAttrs H (instAttrs x) = true) (hop : allInstAttrs H (opKw op) = true)
+    (h : applyEntryH O (.struct c fields defaults) x op = .ok y) : allInstAttrs H (instAttrs y) = true := by
+  have key : ∀ w, applyEntry O (.struct c fields defaults) x op = .ok w →
+      (∃ kw, entryKw (.struct c fields defaults) x op = some kw) → allInstAttrs H (instAttrs w) = true := by
+    intro w hw ⟨kw, hk⟩
+    rw [applyEntry_eq_construct O _ x op kw hk] at hw
+    exact construct_nested_hooks O H c fields defaults kw w hf
+      (c01_entryKw_allInst H _ x op kw hx (by simpa [classDefaults] using hd) hop hk) hd hw
+  have fin : ∀ w, (bindE (applyEntry O (.struct c fields defaults) x op) fun y =>
+        if O.hookOk (instAttrs y) then Except.ok y else Except.error ErrCls.valueErr) = .ok w →
+      (∃ kw, entryKw (.struct c fields defaults) x op = some kw) → allInstAttrs H (instAttrs w) = true := by
+    intro w hw hk
+    rcases bindE_eq_ok hw with ⟨z, hz, h2⟩
+    split at h2
+    · cases h2; exact key _ hz hk
+    · cases h2
+  cases op <;> simp only [applyEntryH] at h
+  · cases h; exact hx
+  · cases h; exact hx
+  · cases h; exact hx
+  · exact fin y h ⟨_, rfl⟩
+  · exact fin y h ⟨_, rfl⟩
+  · exact fin y h ⟨_, rfl⟩
+  · exact fin y h ⟨_, rfl⟩
+
+/-- **C01, hooks of nested classes**: along any chain of entry points whose override keywords hold only hook-accepted
+    instances, every instance nested in the result is accepted by the hook of its class -/
+theorem chainH_nested_hooks (O : Oracles) (H : Hooks) (c : ClassOpts) (fields : List (String × FieldDecl))
+    (defaults : List (String × PyVal)) (hf : fields.all (fun p => noInline p.2) = true)
+    (hd : allInstAttrs H defaults = true) :
+    ∀ (chain : List EntryOp) (x y : PyVal), allInstAttrs H (instAttrs x) = true →
+      (∀ op ∈ chain, allInstAttrs H (opKw op) = true) →
+      runChainH O (.struct c fields defaults) x chain = .ok y → allInstAttrs H (instAttrs y) = true
+  | [], x, y, hx, _, h => by simp only [runChainH] at h; cases h; exact hx
+  | op :: rest, x, y, hx, hops, h => by
+    simp only [runChainH] at h
+    rcases bindE_eq_ok h with ⟨z, hz, h2⟩
+    exact chainH_nested_hooks O H c fields defaults hf hd rest z y
+      (entryH_nested_hooks O H c fields defaults x z op hf hd hx (hops op (by simp)) hz)
+      (fun o ho => hops o (by simp [ho])) h2
+
+/-- non-vacuity: an Outer class holding hooked Range instances (bare and in an Array); a nested instance that the
+    hook refuses is noticed by `allInst`, and hook-accepted arguments yield a hook-accepted result through a clone -/
+theorem nested_hooks_example :
+    let O : Oracles := { reMatch := fun _ _ => true }
+    let H : Hooks := fun cls attrs => !(cls == "Range") ||
+      (match lookup "lo" attrs, lookup "hi" attrs with | some (.int a), some (.int b) => decide (a ≤ b) | _, _ => true)
+    let rng : FieldDecl := .struct { name := "Range", required := ["lo", "hi"], addl := false, accepts := ["Range"] }
+        [("lo", .integer {}), ("hi", .integer {})] []
+    let good : PyVal := .inst "Range" [("lo", .int 1), ("hi", .int 2)]
+    let bad : PyVal := .inst "Range" [("lo", .int 2), ("hi", .int 1)]
+    let outer : FieldDecl := .struct { name := "Outer", required := ["f"], addl := false, accepts := ["Outer"] }
+        [("f", rng), ("items", .seqOf .list rng {})] []
+    allInst H good = true ∧ allInst H bad = false
+    ∧ allInst H (.list [good, .dict [(.str "k", bad)]]) = false
+    ∧ (match runChainH O outer (.inst "Outer" [("f", good)]) [.shallowClone [("items", .list [good, good])], .castTo] with
+        | .ok y => allInstAttrs H (instAttrs y) | .error _ => false) = true := by
+  decide
+
+/-! ### what a field stores validates again, unchanged
+
+Every re-validating entry point (deepcopy, shallow_clone_with_overrides, from_other_class, cast_to,
+serialize-then-deserialize) feeds stored values back into the field.  On the fragment `idemFrag` (Lemmas/Idempotent.lean:
+every declaration kind - numbers, strings, Boolean, enums, Array / Deque / Tuple (homogeneous and positional), Set, Map,
+class references, OneOf / AllOf / NotField - except AnyOf and inline StructureReference) the stored value is accepted
+again and stored unchanged.  For AnyOf the statement is false as it stands (`anyOf_restores_differently`: the stored
+value can match an EARLIER option that converts it - the result is `==` but not identical); for an inline
+StructureReference (re-construction from the stored instance's attributes) it is not proved. -/
+
+theorem validate_idempotent_partial (O : Oracles) (f : FieldDecl) (v w : PyVal) (hf : idemFrag f = true)
+    (h : validate O f v = .ok w) : validate O f w = .ok w := by
+  have hs := validate_spec O f v
+  cases ha : admits O f v
+  · rcases hs.2 ha with ⟨e, he, _⟩
+    rw [he] at h; cases h
+  · have := hs.1 ha
+    rw [this] at h
+    cases h
+    have st := norm_stable O f v hf ha
+    have := (validate_spec O f (norm O f v)).1 st.1
+    rw [st.2] at this
+    exact this
+
+/-- non-vacuity: a nested positional / homogeneous declaration with conversions at the leaves (int → float,
+    'True' → True, a member name → the member) is in the fragment; its stored value validates again unchanged -/
+theorem idempotent_example :
+    let O : Oracles := { reMatch := fun _ _ => true }
+    let f : FieldDecl := .seqOf .list (.tuplePos [.float { min := some ⟨0, 1⟩ }, .boolean, .enumCls "Color" ["RED", "BLUE"],
+                                          .oneOf [.boolean, .enumLit [.int 1, .int 3]]] false) { uniq := true }
+    let g : FieldDecl := .mapOf .boolean (.setOf true (.float {}) { max := some 2 }) {}
+    idemFrag f = true ∧ idemFrag g = true
+    ∧ (match validate O g (.dict [(.str "True", .set false [.int 1, .float ⟨1, 1⟩]), (.bool true, .set false [.int 2])]) with
+        | .ok w => (match w, validate O g w with
+                    | .dict [(.bool true, .set true [.float a])], .ok (.dict [(.bool true, .set true [.float b])]) => a.num == 2 && b.num == 2
+                    | _, _ => false)
+        | .error _ => false) = true
+    ∧ (match validate O f (.list [.tuple [.int 2, .str "True", .str "RED", .str "True"]]) with
+        | .ok w => (match validate O f w with
+                    | .ok w' => (match w, w' with
+                                  | .list [.tuple [.float a, .bool true, .enumv _ _, .str _]], .list [.tuple [.float b, .bool true, .enumv _ _, .str _]] => a.num == b.num
+                                  | _, _ => false)
+                    | .error _ => false)
+        | .error _ => false) = true := by
+  decide
+
+/-- why AnyOf is excluded: AnyOf[Array(items=[Float, Enum[True]]), Array(items=[Integer, Boolean])] given [1, 'True']
+    stores [1, True] (second option); that value matches the FIRST option, which stores [1.0, True] - equal under `==`,
+    not identical (kernel-checked; the real code agrees: deepcopy returns [1.0, True]) -/
+theorem anyOf_restores_differently :
+    let O : Oracles := { reMatch := fun _ _ => true }
+    let f : FieldDecl := .anyOf [.seqPos .list [.float {}, .enumLit [.bool true]] true {},
+                                 .seqPos .list [.integer {}, .boolean] true {}]
+    (match validate O f (.list [.int 1, .str "True"]) with
+      | .ok (.list [.int 1, .bool true]) => true | _ => false) = true
+    ∧ (match validate O f (.list [.int 1, .bool true]) with
+      | .ok (.list [.float q, .bool true]) => q.num == 1 && q.den == 1 | _ => false) = true
+    ∧ PyVal.pyEq (.list [.int 1, .bool true]) (.list [.float ⟨1, 1⟩, .bool true]) = true := by
+  decide
 
 /-! ### OneOf / AllOf keep the value as it was given (fixed in /repo 89fd84a)
 
